@@ -89,8 +89,23 @@ def scn_dispatch(params):
                 labels = [some_label(), bytes(lb)] + list(base[1:])   # one character of the domain changed
             else:
                 labels = [rng.choice([b"ns", b"www", b"NS", b"vaaaaaaa"])] + list(base)
+            if i % 7 == 3:
+                # names of (nearly) the maximum length, 253 characters = 255 octets on the wire: inside the domain, and outside it
+                # by one trailing character
+                tail = list(base) if rng.random() < 0.5 else list(base[:-1]) + [base[-1] + b"x"]
+                room = rng.choice([253, 253, 252, 251, 250, 249]) - len(b".".join(tail)) - 1
+                front = []
+                while room > 0:
+                    l = min(63, room, rng.choice([63, 63, 40, 9]))
+                    if room - l == 1:
+                        l -= 1
+                    if l <= 0:
+                        break
+                    front.append(bytes(rng.choice(b"abcxyz019-") for _ in range(l)))
+                    room -= l + 1
+                labels = front + tail
             labels = [rcase(l) for l in labels]
-            if sum(len(l) + 1 for l in labels) > 250:
+            if sum(len(l) + 1 for l in labels) + 1 > 255:
                 continue
             qt = rng.choice([proto.T_NS, proto.T_NS, proto.T_A, proto.T_NULL, proto.T_TXT])
             if rng.random() < 0.3:
